@@ -409,6 +409,36 @@ impl Prop for Reencode {
     }
 }
 
+/// The fuzz target `wire_roundtrip` decodes its bytes as a choice tape.
+pub fn message_from_fuzz_bytes(data: &[u8]) -> WMsg {
+    let tape: Vec<u32> = data
+        .chunks(4)
+        .map(|c| {
+            let mut b = [0u8; 4];
+            b[..c.len()].copy_from_slice(c);
+            u32::from_be_bytes(b)
+        })
+        .collect();
+    let mut g = Gen::new(&tape);
+    let big = g.chance(1, 4);
+    let o = MsgOpts {
+        max_rrs: 6,
+        max_questions: 3,
+        max_opaque: if big { 65_535 } else { 300 },
+        long_names: true,
+    };
+    gen_wmsg(&mut g, &o)
+}
+
+pub fn classify_tape(b: &[u8]) -> Option<(String, String, &'static str, serde_json::Value)> {
+    let m = message_from_fuzz_bytes(b);
+    let mut out = Outcome::pass(false);
+    match roundtrip(&m, &mut out) {
+        Ok(()) => None,
+        Err((s, d)) => Some((s, d, "bodies", serde_json::to_value(BodyCase { msg: m }).unwrap_or_default())),
+    }
+}
+
 pub fn def() -> PropertyDef {
     PropertyDef {
         id: "C04",
@@ -418,7 +448,13 @@ pub fn def() -> PropertyDef {
             "to_octets may refuse only section counts or RDATA beyond 65535",
             "messages are compared through the public fields (R-WIRE conversion) and through the implementation's own PartialEq",
         ],
-        parts: vec![Box::new(Headers), Box::new(Big), Box::new(Bodies), Box::new(Reencode)],
+        parts: vec![
+            Box::new(Headers),
+            Box::new(Big),
+            Box::new(crate::fuzzrun::FuzzPart { name: "fuzz-wire_roundtrip", target: "wire_roundtrip", runs_per_job: 250_000, jobs: 8, max_len: 4_096, classify: classify_tape }),
+            Box::new(Bodies),
+            Box::new(Reencode),
+        ],
         budget_s: |t| t.pick(900, 10_800),
         needs_repo_bins: false,
     }
